@@ -85,6 +85,11 @@ CHECKS = {
    category="model_checking", design_ref="§5 C18",
    text="TLC decides the definitional structure exactly (k by dimension class, direction of the logarithm's prefix, base, normalisation of the reference) and exports the exact level for every case; alpha builds the quantity reference*base**(j/12) with 50-digit decimals, in the reference's unit and in another convertible unit, and the code's level, quantify(), both round trips and level==quantity are compared at 1e-9; all references of a family also run in one process in both orders.",
    note="The transcendental step is alpha's (decimal module, independent of math.log); TLC's share is the linear part, as stated in DESIGN §9.1."),
+
+ "C13": dict(engine="text", technique="TLA+ spec Text.tla (the documented symbol resolution order over the library's REAL symbol tables as code-point sequences): TLC enumerates every registered prefix x unit symbol and computes the collisions; the model is conformance-checked against Unit.resolve_symbol on every such string; str()/parse round trips, spellings and quantities replayed on the real library",
+   category="model_checking", design_ref="§5 C13",
+   text="Registry-exhaustive at the symbol level (TLC decides, for every prefix x unit symbol, what the concatenation str() writes reads back as); on the implementation every prefix x named unit x exponent (sampled in quick, exhaustive in thorough), two-term products, spellings of one expression and quantities are rendered and parsed back and judged by SameScale (identical object or an equal unit); module sets are imported both from scratch and incrementally in one process.",
+   note="Text is never compared; the equal-unit case trusts the library's conversion for a ratio of 1; compound expressions and spellings are sampled."),
 }
 BUILT = set(CHECKS)
 m = {"version": 1, "setup_cmd": "./setup.sh",
@@ -101,6 +106,7 @@ m = {"version": 1, "setup_cmd": "./setup.sh",
    {"name": "uncertainty", "path": "spec/Uncertainty.tla spec/MC_Uncertainty.tla harness/uncertainty.py", "serves_properties": ["C14"], "kind_free_text": "TLC exact variance oracle + replay"},
    {"name": "names", "path": "spec/Names.tla spec/MC_Names.tla spec/MC_NamesTrace.tla harness/names.py harness/names_recorder.py", "serves_properties": ["C19"], "kind_free_text": "TLC model checking + replay + TLC trace validation of import-time declarations"},
    {"name": "levels", "path": "spec/Levels.tla spec/MC_Levels.tla harness/levels.py", "serves_properties": ["C18"], "kind_free_text": "TLC exact linear oracle + replay through a high-precision exponential map"},
+   {"name": "text", "path": "spec/Text.tla spec/MC_Text.tla harness/text.py", "serves_properties": ["C13"], "kind_free_text": "TLC collision enumeration over real symbol tables + conformance of the resolution model + render/parse replay"},
    {"name": "registry", "path": "spec/Registry.tla spec/MC_Registry.tla harness/registry.py harness/alpha.py", "serves_properties": ["C01", "C02", "C15"], "kind_free_text": "TLC model checking + spec->code replay of every transition (fork tree)"},
  ],
  "checks": [], "notes": "Every check: ./check <id> [--tier quick|thorough]; exit 0 held / 1 VIOLATION / 2 machinery failure. known_findings.txt lists genuine defects left unrepaired and repairs made.",
